@@ -28,7 +28,18 @@ def run(ctx):
         # more through than there are free slots (monitors only: the model knows the shipped generators)
         runs.monitor_batch(ctx, PID, ctx.size(50, 500), salt=45, name="traced-runs-monitor-C08(user-defined generator, unranked candidates)", force=_user_generator),
         fault_census(ctx, ctx.size(30, 300)),
+        _shared_mechanism(ctx),
     ]
+
+
+def _shared_mechanism(ctx):
+    """two trees that share one sprout mechanism object (one LevelLimit), stepped alternately: each tree's levels
+    respect the limit"""
+    from . import c15
+
+    sl = c15.shared_generator(ctx, 24 if not ctx.thorough else 300, 13, only="C08/")
+    sl.name = "one sprout mechanism object serving two trees stepped alternately (level census of both)"
+    return sl
 
 
 def fault_census(ctx, n):
